@@ -536,6 +536,24 @@ def r_source(prog, run):
             run.ok(rid, ap.loc(sv[0][0]), 'ver = discoveryManager->capabilities().verificationString()')
         else:
             run.violation(rid, 'addProperCapability#ver-source', ap.loc(sv[0][0]), 'the advertised ver is %s, not the hash of capabilities()' % t[:80])
+    # ... on every path on which the discovery manager exists (no other condition may keep a stale ver)
+    run.instance(rid)
+    if sv:
+        def custom(f, nid, st):
+            n = f.nodes[nid]
+            if n['k'] == 'var' and n.get('vk') == 'local' and 'QXmppDiscoveryManager' in (n.get('t') or ''):
+                return (True,)
+            if n['k'] == 'call' and f.cname(n).endswith('::findExtension') and 'QXmppDiscoveryManager' in ((f.sym(n) or {}).get('targs') or n.get('t') or ''):
+                return (True,)
+            return None
+        ev = cfgx.Evaluator(ap, {}, custom=custom)
+        exits, _ = cfgx.explore(ap, 'stale', lambda f, nid, st: 'set' if nid == sv[0][0] else None, lambda f, c, st: ev.ev(c, st))
+        if set(exits) == {'set'}:
+            run.ok(rid, ap.loc(sv[0][0]), 'ver is recomputed on every path on which the discovery manager exists')
+        else:
+            run.violation(rid, 'addProperCapability#conditional-ver', ap.loc(sv[0][0]),
+                          'addProperCapability keeps the ver already present in the presence on some path: a presence copied from clientPresence() keeps advertising the '
+                          'hash of an earlier capability set', cfgx.describe_path(ap, exits.get('stale', [])))
     run.instance(rid)
     sh = [(i, n) for i, n in ap.calls('QXmppPresence::setCapabilityHash')]
     if sh and ap.strval(sh[0][1]['args'][0]) == 'sha-1':
